@@ -8,8 +8,8 @@ import (
 	"golang.org/x/tools/go/packages"
 )
 
-// intConst returns the value of the integer constant name of package p.
-func intConst(p *packages.Package, name string) int64 {
+// mustIntConst returns the value of the integer constant name of package p.
+func mustIntConst(p *packages.Package, name string) int64 {
 	o := p.Types.Scope().Lookup(name)
 	if o == nil {
 		panic("constant " + name + " not found in " + p.PkgPath)
@@ -31,7 +31,7 @@ func init() {
 	register("Facts_paths", func(w *world, b *bytes.Buffer) error {
 		p := w.pkg("ast")
 		for _, n := range []string{"FormatText", "FormatHTML", "FormatCSS", "FormatJS", "FormatJSON", "FormatMarkdown"} {
-			fmt.Fprintf(b, "(* ast.%s *)\nDefinition gen_%s : N := %d.\n\n", n, n, intConst(p, n))
+			fmt.Fprintf(b, "(* ast.%s *)\nDefinition gen_%s : N := %d.\n\n", n, n, mustIntConst(p, n))
 		}
 		return nil
 	})
